@@ -611,3 +611,9 @@ N('C18', 'connective test written as a whole-term comparison', 'smt/veriT/verit_
 N('C18', 'connective tests merged into one condition with the comparison', 'smt/veriT/verit_macro.py',
   "        if not pt.prop.is_implies():\n            raise VeriTException(\"implies\", \"premise should be an implication\")\n        if Or(Not(pt.prop.arg1), pt.prop.arg) == goal:",
   "        if pt.prop.is_implies() and Or(Not(pt.prop.arg1), pt.prop.arg) == goal:")
+B('C04', 'imp_conj fast path without the connective test', 'logic/logic.py',
+  "        assert goal.is_implies(), \"imp_conj: goal is not an implication\"\n", "", 'C04.M9', 'imp_conj')
+B('C04', 'prove_avalI fast path without the head test', 'data/expr.py',
+  "        assert goal.head == avalI and len(goal.args) == 3, \"prove_avalI_macro: goal is not of the form avalI s t n\"\n", "", 'C04.M9', 'prove_avalI')
+N('C04', 'imp_disj connective test as if / raise', 'logic/logic.py',
+  "        assert goal.is_implies(), \"imp_disj: goal is not an implication\"\n", "        if not goal.is_implies():\n            raise AssertionError(\"imp_disj: goal is not an implication\")\n")
